@@ -223,6 +223,11 @@ impl RoleManager for DefaultRoleManager {
         name2: &str,
         domain: Option<&str>,
     ) -> Result<()> {
+        // add_link never stores a self-link (nor creates its node)
+        if name1 == name2 {
+            return Ok(());
+        }
+
         if !self.domain_has_role(name1, domain)
             || !self.domain_has_role(name2, domain)
         {
